@@ -160,16 +160,23 @@ theorem overwrite_then_force_invisible (e e' : Nat) (w : Wire) (hw : ∀ c ∈ w
     have : r = .input := by simpa using hr
     subst this; exact force_no_alias e e' w hw) (agreeOutside_overwrite s .input f)
 
+/-- **Lazy decoding followed by access to everything builds exactly the heap that eager decoding
+builds** (same allocations, same regions for every leaf), for every input -/
+theorem lazy_then_force_eq_eager (e : Nat) (w : Wire) :
+    force lazyBuffer e (unmarshal e true w) = unmarshal e false w := by
+  have hlb : lazyBuffer = .aliasOnlyUnderFlag := table_lazy_buffer.1
+  unfold unmarshal decode force
+  rw [hlb]
+  have hl := lazyEnter_alias publicUnmarshalSetsAlias .input (.fresh e [0])
+  split
+  · simp only
+    rw [forceFs_decodeFs e w.fields _ _ _ [1] (fun b hb => by cases hb; exact hl)]
+  · simp only
+    rw [forceFs_decodeFs e w.fields _ _ _ [1] (fun b hb => by cases hb)]
+
 /-- after forcing nothing is left undecoded -/
 theorem force_complete (lb : Cls) (e : Nat) (t : Tree) : noThunksFs (force lb e t).fields = true :=
   forceFs_noThunks lb e t.fields [1]
-
-/-- protodelim: the message read through a `*bufio.Reader` is decoded from the Peek window (region
-`input`); the window is referenced afterwards only if the extracted entry says so -/
-def delimUnmarshal (e : Nat) (defer : Bool) (w : Wire) : Tree :=
-  match delimWindow with
-  | .transient | .copy => unmarshal e defer w
-  | _ => { unmarshal e defer w with buf := some .input }
 
 /-- **protodelim messages do not reference the reader's buffer** -/
 theorem delim_no_alias (e : Nat) (defer : Bool) (w : Wire) (hw : ∀ c ∈ wcodersFs w.fields, c ∈ coders) :
